@@ -42,7 +42,8 @@ def lookback_spec(rng, dt):
     gain, base -> signal = gain*base + time ; echo = delay(signal, 2dt) ; sm = smooth(signal, T, init) ; acc' = echo"""
     d = float(D(dt) * rng.choice([1, 2, 3]))
     els = [dict(name="gain", kind="constant", value=rng.choice([1.0, 2.0])), dict(name="base", kind="constant", value=10.0),
-           dict(name="signal", kind="converter", eq=["bin", "+", ["bin", "*", ["ref", "gain"], ["ref", "base"]], ["time"]]),
+           dict(name="lk", kind="converter", eq=["lookup", ["time"], "dummy"]),          # a named lookup: points-only settings reach the chain, too
+           dict(name="signal", kind="converter", eq=["bin", "+", ["bin", "*", ["ref", "gain"], ["ref", "base"]], ["bin", "*", ["ref", "lk"], ["num", 4.0]]]),
            dict(name="echo", kind="converter", eq=["delay", "signal", d, rng.choice([None, 1.5])])]
     variant = rng.choice(["delay-only", "delay-only", "smooth", "stock", "all"])      # a stock (also the hidden one of smooth) evaluates its inputs eagerly
     req = [["echo"], ["echo", "gain"], ["echo", "base"]]
@@ -50,7 +51,7 @@ def lookback_spec(rng, dt):
         els.append(dict(name="sm", kind="converter", eq=["smooth", ["ref", "signal"], rng.choice([2.0, 4.0]), 5.0]))
         req += [["sm"], ["echo", "sm"]]
     if variant in ("stock", "all"):
-        els += [dict(name="inflow", kind="biflow", eq=["ref", "echo"]), dict(name="acc", kind="stock", init=1.0, eq=["ref", "inflow"])]
+        els += [dict(name="inflow", kind="biflow", eq=["bin", "+", ["ref", "echo"], ["ref", "lk"]]), dict(name="acc", kind="stock", init=1.0, eq=["ref", "inflow"])]
         req += [["echo", "acc"], ["acc"]]
     return dict(points={"dummy": [[0.0, 1.0], [10.0, 2.0]]}, elements=els, req_choices=req)
 
